@@ -72,7 +72,14 @@ struct counting_integrand
     {
         ++calls();
         points().push_back(p.point());
-        return T(1) + p.point()[0];
+        return value(p.point()[0]);
+    }
+    // a cut (exactly zero on part of the domain) and a non-finite region: the work split must not depend on what
+    // the integrand returns
+    static T value(T x)
+    {
+        sz const cell = static_cast<sz>(x * T(8));
+        return cell % 4 == 1 ? T() : cell == 6 ? std::numeric_limits<T>::infinity() : T(1) + x;
     }
     static sz& calls() { static sz c = 0; return c; }
     static std::vector<std::vector<T>>& points() { static std::vector<std::vector<T>> p; return p; }
@@ -84,7 +91,7 @@ struct counting_mc_integrand
     T operator()(hep::multi_channel_point<T> const& p) const
     {
         ++counting_integrand<T>::calls();
-        return T(1) + p.coordinates()[0];
+        return counting_integrand<T>::value(p.coordinates()[0]);
     }
 };
 
@@ -99,11 +106,12 @@ struct id_map
     }
 };
 
-// kind 0 mpi_plain (2 numbers per call), 1 mpi_vegas (2), 2 mpi_multi_channel (1 + channel = 2)
+// kind 0 mpi_plain (2 numbers per call), 1 mpi_vegas (2), 2 mpi_multi_channel (1 + channel = 2), 3 the same with a
+// single channel (the channel draw is made all the same).  Two iterations of `total` calls each.
 template <typename T>
 static void part_b(report& r, int kind, sz total, int world)
 {
-    char const* const names[] = {"mpi_plain", "mpi_vegas", "mpi_multi_channel"};
+    char const* const names[] = {"mpi_plain", "mpi_vegas", "mpi_multi_channel", "mpi_multi_channel(1 channel)"};
     std::string const id = std::string(names[kind]) + " " + vf::type_name<T>() + " total=" + std::to_string(total)
         + " world=" + std::to_string(world);
     if (!r.want(id)) return;
@@ -121,20 +129,20 @@ static void part_b(report& r, int kind, sz total, int world)
         counting_integrand<T>::points().clear();
         if (kind == 0)
         {
-            auto chk = hep::mpi_plain(comm, hep::make_integrand<T>(counting_integrand<T>(), 2), std::vector<sz>{total},
+            auto chk = hep::mpi_plain(comm, hep::make_integrand<T>(counting_integrand<T>(), 2), std::vector<sz>{total, total},
                 hep::make_plain_chkpt<T, E>(), vf::never_stop_mpi());
             end_pos[rank] = chk.generator().position(); reported[rank] = chk.results().back().calls();
         }
         else if (kind == 1)
         {
-            auto chk = hep::mpi_vegas(comm, hep::make_integrand<T>(counting_integrand<T>(), 2), std::vector<sz>{total},
-                hep::make_vegas_chkpt<T, E>(3, T(1.5), E()), vf::never_stop_mpi());
+            auto chk = hep::mpi_vegas(comm, hep::make_integrand<T>(counting_integrand<T>(), 2), std::vector<sz>{total, total},
+                hep::make_vegas_chkpt<T, E>(3, T(0.75), E()), vf::never_stop_mpi());
             end_pos[rank] = chk.generator().position(); reported[rank] = chk.results().back().calls();
         }
         else
         {
-            auto chk = hep::mpi_multi_channel(comm, hep::make_multi_channel_integrand<T>(counting_mc_integrand<T>(), 1, id_map<T>(), 1, 2),
-                std::vector<sz>{total}, hep::make_multi_channel_chkpt<T, E>(T(), T(0.25), E()), vf::never_stop_mpi());
+            auto chk = hep::mpi_multi_channel(comm, hep::make_multi_channel_integrand<T>(counting_mc_integrand<T>(), 1, id_map<T>(), 1, kind == 3 ? 1 : 2),
+                std::vector<sz>{total, total}, hep::make_multi_channel_chkpt<T, E>(T(0.015625), T(0.5), E()), vf::never_stop_mpi());
             end_pos[rank] = chk.generator().position(); reported[rank] = chk.results().back().calls();
         }
         per_rank[rank] = counting_integrand<T>::calls();
@@ -148,35 +156,39 @@ static void part_b(report& r, int kind, sz total, int world)
     sz sum = 0, mn = ~sz(0), mx = 0;
     for (int k = 0; k != world; ++k)
     {
-        sum += per_rank[k]; mn = std::min(mn, per_rank[k]); mx = std::max(mx, per_rank[k]);
-        if (per_rank[k] != share(total, k, world))
+        sum += per_rank[k]; mn = std::min(mn, per_rank[k] / 2); mx = std::max(mx, (per_rank[k] + 1) / 2);   // per iteration
+        if (per_rank[k] != 2 * share(total, k, world))
             r.violate("evaluations-differ-from-the-share-implied-by-discard_before", id, id + ": rank " + std::to_string(k) + " evaluated "
-                + std::to_string(per_rank[k]) + " points, discard_before places its share at [" + std::to_string(hep::discard_before(total, k, world))
+                + std::to_string(per_rank[k]) + " points in two iterations, discard_before places its share at [" + std::to_string(hep::discard_before(total, k, world))
                 + ", +" + std::to_string(share(total, k, world)) + ")");
-        if (end_pos[k] != 2 * total)
+        if (end_pos[k] != 4 * total)
             r.violate("rank-does-not-end-at-total", id, id + ": rank " + std::to_string(k) + " ends at stream position "
-                + std::to_string(end_pos[k]) + " instead of " + std::to_string(2 * total));
+                + std::to_string(end_pos[k]) + " instead of " + std::to_string(4 * total) + " after two iterations");
         if (reported[k] != total)
             r.violate("calls-do-not-sum-to-total", id, id + ": reported calls " + std::to_string(reported[k]));
     }
-    if (sum != total) r.violate("calls-do-not-sum-to-total", id, id + ": sum of per-rank evaluations " + std::to_string(sum));
+    if (sum != 2 * total) r.violate("calls-do-not-sum-to-total", id, id + ": sum of per-rank evaluations " + std::to_string(sum));
     if (mx - mn > 1) r.violate("calls-differ-by-more-than-one", id, id + ": max-min=" + std::to_string(mx - mn));
-    if (kind == 0 && sum == total)
+    if (kind == 0 && sum == 2 * total)
     {
         // the shares are placed without gap or overlap: in rank order the ranks see exactly the serial point sequence
         counting_integrand<T>::points().clear();
         vf::script_engine gen;
         (void) hep::plain_iteration(hep::make_integrand<T>(counting_integrand<T>(), 2), total, gen);
+        (void) hep::plain_iteration(hep::make_integrand<T>(counting_integrand<T>(), 2), total, gen);
         auto const serial = counting_integrand<T>::points();
         sz pos = 0;
+        // rank k's log holds its share of the first iteration followed by its share of the second one
+        for (int iter = 0; iter != 2; ++iter)
         for (int k = 0; k != world; ++k)
-            for (auto const& pt : rank_points[k])
+            for (sz j = 0; j != share(total, k, world); ++j)
             {
+                auto const& pt = rank_points[k][iter * share(total, k, world) + j];
                 if (pos >= serial.size() || !vf::same_bits(pt[0], serial[pos][0]) || !vf::same_bits(pt[1], serial[pos][1]))
                 {
                     r.violate("shares-not-placed-contiguously", id, id + ": point " + std::to_string(pos) + " in rank order (rank " + std::to_string(k) + ") is ("
                         + vf::dec(pt[0]) + ", " + vf::dec(pt[1]) + "), the serial stream has (" + (pos < serial.size() ? vf::dec(serial[pos][0]) + ", " + vf::dec(serial[pos][1]) : std::string("nothing")) + ")");
-                    k = world - 1; break;
+                    k = world - 1; iter = 1; break;
                 }
                 ++pos;
             }
@@ -264,7 +276,7 @@ int main(int argc, char** argv)
         std::vector<sz> const totals = {0, 1, 2, 3, 5, 7, 8, 10, 31, 33, 64, 100};
         int const maxw = a.thorough() ? 33 : 12;
         vf::script_engine::table().clear();
-        for (int kind = 0; kind != 3; ++kind)
+        for (int kind = 0; kind != 4; ++kind)
         for (int w = 1; w <= maxw; ++w)
             for (sz t : totals)
             {
